@@ -97,7 +97,8 @@ func runLBAff(x *X) {
 		name := fmt.Sprintf("b%d", hostN)
 		host := fmt.Sprintf("10.3.0.%d:80", hostN)
 		net.add(name, host, "")
-		return config.BackendConfig{Name: name, Address: "http://" + host, Weight: 1}
+		// (weights play no part in hash affinity -- which is exactly why they vary here)
+		return config.BackendConfig{Name: name, Address: "http://" + host, Weight: 1 + c.Intn(5, "weight")}
 	}
 	for i := 0; i < nb; i++ {
 		bc := addCfg()
@@ -225,7 +226,19 @@ func runLBAff(x *X) {
 	traffic(false)
 	nOps := 2 + c.Intn(6, "nops")
 	for i := 0; i < nOps && !x.dead; i++ {
-		switch c.Pick([]int{4, 3, 2, 2, 2}, "op") {
+		switch c.Pick([]int{4, 3, 2, 2, 2, 2}, "op") {
+		case 5: // the operator switches to another strategy and back: same members, same mapping
+			other := strategies[c.Intn(5, "via-strategy")]
+			x.Do("switch", func() {
+				if err := h.lb.SetStrategy(other); err != nil {
+					panic(err)
+				}
+				if err := h.lb.SetStrategy(strategy); err != nil {
+					panic(err)
+				}
+			}, onErr)
+			hist = append(hist, "strategy("+other+")+back")
+			x.Probe("strategy-round-trip")
 		case 0:
 			traffic(c.Intn(2, "conc") == 1)
 			hist = append(hist, "traffic")
